@@ -1,7 +1,7 @@
 SPECIFICATION Spec
 CONSTANTS
   Sess = {1, 2}
-  MaxcSet = {1, 2}
+  MaxcSet = {1}
   MaxBytes = 1
   Dev = "none"
 INVARIANTS TypeOK SingleExit CountBalanced CountBounded EndedExited OpenWhileAlive RefusedClosed InOrder Flush QuietEnded QuietCount 
